@@ -1619,6 +1619,12 @@ impl<'a> Model<'a> {
                             }
                         }
                     }
+                    // Dependents must observe what `set_cells_with_result` stored in the cell:
+                    // an empty result is stored as 0 and a non-finite number as #NUM!.
+                    CalcResult::EmptyCell | CalcResult::EmptyArg => CalcResult::Number(0.0),
+                    CalcResult::Number(f) if !f.is_finite() => {
+                        CalcResult::new_error(Error::NUM, cell_reference, "".to_string())
+                    }
                     _ => result,
                 }
             }
